@@ -59,6 +59,11 @@ fn level_args(tag: &str, short_base: u8) -> Vec<ArgSpec> {
     // an option with a value hint; the hint varies with the level so that all are exercised
     const HINTS: [&str; 11] = ["FilePath", "DirPath", "AnyPath", "ExecutablePath", "CommandName", "CommandString", "Username", "Hostname", "Url", "EmailAddress", "Other"];
     let mut hv = ArgSpec::opt(&format!("hint{}", tag), None, Some(&format!("lhint{}", tag)));
+    // a short whose only alias is a hidden one
+    if ((short_base + 2) as char).is_ascii_lowercase() {
+        hv.short = Some((short_base + 2) as char);
+        hv.short_aliases.push(upper(short_base + 2));
+    }
     hv.value_hint = Some(HINTS[(tag.bytes().map(|b| b as usize).sum::<usize>() + short_base as usize) % HINTS.len()].to_string());
     vec![f, o, ov, hid, hv]
 }
@@ -108,6 +113,18 @@ fn trees(thorough: bool) -> Vec<Tree> {
                         pl.last = true;
                         pl.parser = Vp::Pv(vec![PvSpec { name: format!("lastone{}", ci), ..Default::default() }, PvSpec { name: format!("lasttwo{}", ci), ..Default::default() }]);
                         c.args.push(pl);
+                    }
+                    if pos && k == 1 && n != "sb" {
+                        // leaf level: a multi-value positional without terminator, then a required
+                        // single-value positional with possible values (`cp <SRC>... <MODE>`)
+                        let mut ps = ArgSpec::pos(&format!("psrc{}", ci), 1);
+                        ps.num_args = Some((1, None));
+                        ps.required = true;
+                        c.args.push(ps);
+                        let mut pm = ArgSpec::pos(&format!("pmode{}", ci), 2);
+                        pm.required = true;
+                        pm.parser = Vp::Pv(vec![PvSpec { name: format!("modeone{}", ci), ..Default::default() }, PvSpec { name: format!("modetwo{}", ci), ..Default::default() }]);
+                        c.args.push(pm);
                     }
                     if n == "sb" {
                         // nested `sb` -> `c` collides with `sb-c` after name mangling
